@@ -12,13 +12,8 @@ FLAVOURS = {
 
 PROPS = {}
 
-PROPS["C17"] = {
-    "level": "exploration",
-    "technique": "exhaustive enumeration of all \\uXXXX code units, surrogate pairs and byte pairs against a reference UTF-8 encoder/escaper",
-    "rule": "cases = (code unit x hex casing x position), unpaired-surrogate contexts, surrogate pairs, 1- and 2-byte strings as value and key; "
-            "non-trivial = code unit >= 0x80, any surrogate case, or a byte string in which the serializer had to escape something; distinct by case key",
-    "assumptions": ["reference UTF-8 encoder and escaper in checks/nx_unicode.hpp are written from RFC 3629 / the property statement",
-                    "ARDUINOJSON_DECODE_UNICODE=1 (default)"],
-    "quick": [{"src": "checks/nx_unicode.cpp", "mode": "unicode", "deps": ["checks/nx_unicode.hpp"]}],
-    "thorough": [{"src": "checks/nx_unicode.cpp", "mode": "unicode", "deps": ["checks/nx_unicode.hpp"]}],
-}
+
+# Per-property fragments live in jobs.d/*.py; each one fills PROPS["Cxx"].
+import glob as _glob, os as _os
+for _f in sorted(_glob.glob(_os.path.join(_os.path.dirname(_os.path.abspath(__file__)), "jobs.d", "*.py"))):
+    exec(compile(open(_f).read(), _f, "exec"), {"PROPS": PROPS, "FLAVOURS": FLAVOURS})
